@@ -545,6 +545,11 @@ NOTE:
     if 'onfail' in settings:
         onfail = settings['onfail']; del settings['onfail']
     else: onfail = None
+    def _same(x, y): # equal, or equal to within floating-point rounding
+        if x == y: return True
+        from mystic.math import almostEqual
+        try: return bool(almostEqual(x, y, tol=0.0, rel=1e-15))
+        except Exception: return False
     def _constraint(x): #XXX: inefficient, rewrite without append
         x = [x.tolist() if hasattr(x, 'tolist') else x[:]]
         # apply all constraints once
@@ -562,7 +567,7 @@ NOTE:
                     ci = x[-1][:] #XXX: do something else?
                 else: raise exc
             x.append(ci.tolist() if hasattr(ci, 'tolist') else ci)
-        if all(xi == x[-1] for xi in x) and e is None:
+        if all(_same(xi, x[-1]) for xi in x) and e is None:
             return x[-1] if onexit is None else onexit(x[-1][:])
         # cycle constraints until there's no change
         _constraints = it.cycle(constraints) 
@@ -580,7 +585,7 @@ NOTE:
                     ci = x[-1][:] #XXX: do something else?
                 else: raise exc
             x.append(ci.tolist() if hasattr(ci, 'tolist') else ci)
-            if all(xi == x[-1] for xi in x[-(n+1):]) and e is None:
+            if all(_same(xi, x[-1]) for xi in x[-(n+1):]) and e is None:
                 return x[-1] if onexit is None else onexit(x[-1][:])
             # may be trapped in a cycle... randomize
             if x[-1] == x[-(n+1)]:
